@@ -1090,6 +1090,15 @@ func (be *boundsEngine) proveGoal(p *prover, g ineq, b *ssa.BasicBlock, hyps []i
 	return false, ""
 }
 
+func isLoopPhi(phi *ssa.Phi) bool {
+	for i := range phi.Edges {
+		if phi.Block().Dominates(phi.Block().Preds[i]) {
+			return true
+		}
+	}
+	return false
+}
+
 func (p *prover) phiOfAtom(atom string) (*ssa.Phi, bool) {
 	for _, b := range p.fn.Blocks {
 		for _, in := range b.Instrs {
@@ -1141,6 +1150,10 @@ func (be *boundsEngine) phiLemmas(p *prover, g ineq, facts []ineq, depth int) []
 		}
 		P := linAtom(a)
 		var cands []ineq
+		if _, inGoal := g.e.t[a]; inGoal && !isLoopPhi(phi) {
+			// a join of alternatives: the goal itself, alternative by alternative (a = f.a or a longer copy of it)
+			cands = append(cands, ineq{newLin().comb(g.e, big.NewRat(1, 1)), "lemma: the goal holds for every alternative of " + a})
+		}
 		for _, k := range []int64{0, 1} {
 			cands = append(cands, leq(linConst(k), P, fmt.Sprintf("lemma %s >= %d", a, k)))
 		}
